@@ -207,6 +207,11 @@ func emptyEnum(opts ...string) *Bundle {
 		&Element{Kind: "enum", N: &Nested{Kind: "enum", Name: "Status", Enum: &Enum{Name: "Status", Opts: opts}}})}}
 }
 
+func withNum(b *Bundle, opt string, n int) *Bundle {
+	b.Files[0].Elements[0].N.Enum.OptNum = map[string]int{opt: n}
+	return b
+}
+
 func nestedEmptyEnum(opts ...string) *Bundle {
 	return &Bundle{Files: []*File{file([]string{"foo", "v1"}, "a",
 		&Element{Kind: "object", N: &Nested{Kind: "object", Name: "Foo", Props: []*Property{prop("x", str("string"))},
@@ -260,6 +265,9 @@ func EditCorpus() []EditPair {
 			[]EditRec{{"field", "foo/v1/a.j5s/topic:BazRequestMessage", "forwardedFor ref to implicit type RequestMetadata", "EAppendTopicField 0 0 0 " + fwd.Coq(), ""}}, false},
 		{topicBundle("upsert", nil), topicBundle("upsert", ups), "foo.v1",
 			[]EditRec{{"field", "foo/v1/a.j5s/topic:BazMessage", "prev ref to implicit type UpsertMetadata", "EAppendTopicField 0 0 0 " + ups.Coq(), ""}}, false},
+		// seeded C13-G class, deterministic: the appended option carries `number = 2`, a number an earlier option has
+		{emptyEnum("LOW", "MEDIUM", "HIGH"), withNum(emptyEnum("LOW", "MEDIUM", "HIGH", "URGENT"), "URGENT", 2), "foo.v1",
+			[]EditRec{{"option", "foo/v1/a.j5s:Status", "URGENT {number = 2}", "EAppendOption 0 0 " + S("URGENT"), ""}}, false},
 		// not the finding: an ordinary option, and the zero value spelled out, appended to an enum without options
 		{emptyEnum(), emptyEnum("ACTIVE", "OLD_UNSPECIFIED"), "foo.v1",
 			[]EditRec{{"option", "foo/v1/a.j5s:Status", "ACTIVE", "EAppendOption 0 0 " + S("ACTIVE"), ""},
